@@ -1,9 +1,11 @@
 (* Model of the stateless reset token bookkeeping across connections:
    s2n-quic-transport/src/connection/peer_id_registry.rs (register_initial_stateless_reset_token,
-   on_new_connection_id, consume_new_id_inner, Drop), connection_id_mapper.rs (StatelessResetMap,
+   on_new_connection_id incl. retire_prior_to, consume_new_id_inner, on_transmit, on_packet_ack,
+   Drop), connection_id_mapper.rs (StatelessResetMap,
    remove_internal_connection_id_by_stateless_reset_token) and endpoint/mod.rs
    (close_on_matching_stateless_reset), driven through the hook verif_hooks/reset_map.rs.
-   Retirement by retire_prior_to (RETIRE_CONNECTION_ID acknowledged) is not modelled.
+   The generator keeps NEW_CONNECTION_ID frames acceptable (fresh increasing sequence numbers,
+   tokens distinct within a connection, at most 3 active and 6 retired ids).
    Executable definitions only. *)
 From SQ Require Import lib.Base gen.Gen_C06 model.Nonce model.RxPipeline.
 Local Open Scope N_scope.
@@ -14,10 +16,16 @@ Definition tok_bytes (t : N) : list N := be_bytes 16 t.
 Definition map_insert (t : list N) (c : N) (m : list (list N * N)) : list (list N * N) :=
   (t, c) :: filter (fun e => negb (eqb_bytes t (fst e))) m.
 
+(* PeerIdStatus *)
+Inductive status := SNew | SInUse | SPendRet | SPendAck (pn : N).
+Definition is_active (st : status) : bool := match st with SNew | SInUse => true | _ => false end.
+
+Record idinfo := mki { i_seq : N; i_tok : option N; i_st : status }.
+
 Record conn := mkc {
   c_open : bool;
-  c_fresh : list (N * N);     (* ids announced by NEW_CONNECTION_ID, not yet in use: (id, token) *)
-  c_toks : list N             (* tokens of all registered ids, in registration order *)
+  c_rpt : N;                  (* retire_prior_to *)
+  c_ids : list idinfo         (* registered_ids, in registration order *)
 }.
 
 Record st := mks { conns : list conn; tmap : list (list N * N) }.
@@ -29,93 +37,154 @@ Fixpoint set_conn (i : nat) (l : list conn) (x : conn) : list conn :=
   | h :: t, S j => h :: set_conn j t x
   end.
 
-Definition get_open (s : st) (c : Z) : option (nat * conn) :=
-  if (c <? 0)%Z then None else
-  match nth_error (conns s) (Z.to_nat c) with
-  | Some k => if c_open k then Some (Z.to_nat c, k) else None
+Definition get_open (s : st) (c : N) : option conn :=
+  match nth_error (conns s) (N.to_nat c) with
+  | Some k => if c_open k then Some k else None
   | None => None
   end.
 
-(* ops: 0 flag tok (open) | 1 c seq tok (NEW_CONNECTION_ID) | 2 c (take the next id into use)
-        | 3 c (connection dropped) | 4 len bytes (datagram) *)
-Fixpoint run_ops (fuel : nat) (s : st) (c : list Z) : list Z :=
+Inductive rop :=
+| OOpen (flag : bool) (tok : N)
+| ONew (c seq rpt tok : N)
+| OUse (c : N)
+| ODrop (c : N)
+| ODgram (d : list N)
+| OTx (c pn : N)
+| OAck (c pn : N).
+
+(* tokens of a list of ids, in order *)
+Definition toks_of (l : list idinfo) : list N :=
+  flat_map (fun e => match i_tok e with Some t => [t] | None => [] end) l.
+
+Definition remove_all (ts : list N) (m : list (list N * N)) : list (list N * N) :=
+  fold_left (fun m t => snd (map_remove (tok_bytes t) m)) ts m.
+
+(* consume_new_id_inner: the first New id *)
+Fixpoint take_new (l : list idinfo) : option (idinfo * list idinfo) :=
+  match l with
+  | [] => None
+  | e :: r =>
+      match i_st e with
+      | SNew => Some (e, mki (i_seq e) (i_tok e) SInUse :: r)
+      | _ => match take_new r with Some (x, r') => Some (x, e :: r') | None => None end
+      end
+  end.
+
+Definition retire_ready (rp : N) (e : idinfo) : idinfo :=
+  if is_active (i_st e) && (i_seq e <? rp) then mki (i_seq e) (i_tok e) SPendRet else e.
+
+Definition is_pend_ret (e : idinfo) : bool := match i_st e with SPendRet => true | _ => false end.
+Definition is_pend_ack (pn : N) (e : idinfo) : bool := match i_st e with SPendAck q => q =? pn | _ => false end.
+
+Definition step (s : st) (o : rop) : st * list Z :=
+  match o with
+  | OOpen flag tok =>
+      let i := N.of_nat (length (conns s)) in
+      ({| conns := conns s ++ [mkc true 0 [mki 0 (if flag then Some tok else None) SInUse]];
+          tmap := if flag then map_insert (tok_bytes tok) i (tmap s) else tmap s |}, [])
+  | ONew c seq rpt tok =>
+      match get_open s c with
+      | None => (s, [9%Z])
+      | Some k =>
+          let rp := N.max (c_rpt k) rpt in
+          let ids := map (retire_ready rp) (c_ids k) ++ [retire_ready rp (mki seq (Some tok) SNew)] in
+          ({| conns := set_conn (N.to_nat c) (conns s) (mkc true rp ids); tmap := tmap s |}, [0%Z])
+      end
+  | OUse c =>
+      match get_open s c with
+      | None => (s, [9%Z])
+      | Some k =>
+          match take_new (c_ids k) with
+          | None => (s, [(-1)%Z])
+          | Some (e, ids) =>
+              ({| conns := set_conn (N.to_nat c) (conns s) (mkc true (c_rpt k) ids);
+                  tmap := match i_tok e with Some t => map_insert (tok_bytes t) c (tmap s) | None => tmap s end |},
+               [Nz (c * 256 + i_seq e)])
+          end
+      end
+  | ODrop c =>
+      match get_open s c with
+      | None => (s, [9%Z])
+      | Some k =>
+          ({| conns := set_conn (N.to_nat c) (conns s) (mkc false 0 []);
+              tmap := remove_all (toks_of (c_ids k)) (tmap s) |}, [0%Z])
+      end
+  | ODgram d =>
+      let '(r, m') := on_stateless_reset (tmap s) d in
+      ({| conns := conns s; tmap := m' |}, [match r with None => 0%Z | Some i => Nz (i + 1) end])
+  | OTx c pn =>
+      match get_open s c with
+      | None => (s, [9%Z])
+      | Some k =>
+          let n := length (filter is_pend_ret (c_ids k)) in
+          let ids := map (fun e => if is_pend_ret e then mki (i_seq e) (i_tok e) (SPendAck pn) else e) (c_ids k) in
+          ({| conns := set_conn (N.to_nat c) (conns s) (mkc true (c_rpt k) ids); tmap := tmap s |}, [Z.of_nat n])
+      end
+  | OAck c pn =>
+      match get_open s c with
+      | None => (s, [9%Z])
+      | Some k =>
+          let gone := filter (is_pend_ack pn) (c_ids k) in
+          let ids := filter (fun e => negb (is_pend_ack pn e)) (c_ids k) in
+          ({| conns := set_conn (N.to_nat c) (conns s) (mkc true (c_rpt k) ids);
+              tmap := remove_all (toks_of gone) (tmap s) |}, [0%Z])
+      end
+  end.
+
+Fixpoint run_ops (s : st) (ops : list rop) : list Z :=
+  match ops with
+  | [] => []
+  | o :: t => let '(s', out) := step s o in out ++ run_ops s' t
+  end.
+
+(* case -> ops: 0 flag tok | 1 c seq tok | 2 c | 3 c | 4 len bytes | 5 c seq tok (retire_prior_to = seq)
+                | 6 c pn (one packet is written) | 7 c pn (it is acknowledged) *)
+Fixpoint parse (fuel : nat) (c : list Z) : list rop :=
   match fuel with
   | O => []
   | S f =>
       match c with
-      | 0%Z :: flag :: tok :: r =>
-          let i := N.of_nat (length (conns s)) in
-          let has := negb (flag =? 0)%Z in
-          run_ops f {| conns := conns s ++ [mkc true [] (if has then [zN tok] else [])];
-                       tmap := if has then map_insert (tok_bytes (zN tok)) i (tmap s) else tmap s |} r
+      | 0%Z :: flag :: tok :: r => OOpen (negb (flag =? 0)%Z) (zN tok) :: parse f r
       | 1%Z :: c0 :: seq :: tok :: r =>
-          match get_open s c0 with
-          | None => 9%Z :: run_ops f s r
-          | Some (i, k) =>
-              0%Z :: run_ops f {| conns := set_conn i (conns s)
-                                             (mkc true (c_fresh k ++ [(zN c0 * 256 + zN seq, zN tok)]) (c_toks k ++ [zN tok]));
-                                  tmap := tmap s |} r
-          end
-      | 2%Z :: c0 :: r =>
-          match get_open s c0 with
-          | None => 9%Z :: run_ops f s r
-          | Some (i, k) =>
-              match c_fresh k with
-              | [] => (-1)%Z :: run_ops f s r
-              | (id, tok) :: fr =>
-                  Nz id :: run_ops f {| conns := set_conn i (conns s) (mkc true fr (c_toks k));
-                                        tmap := map_insert (tok_bytes tok) (N.of_nat i) (tmap s) |} r
-              end
-          end
-      | 3%Z :: c0 :: r =>
-          match get_open s c0 with
-          | None => 9%Z :: run_ops f s r
-          | Some (i, k) =>
-              0%Z :: run_ops f {| conns := set_conn i (conns s) (mkc false [] []);
-                           tmap := fold_left (fun m t => snd (map_remove (tok_bytes t) m)) (c_toks k) (tmap s) |} r
-          end
-      | 4%Z :: len :: r =>
-          let d := map zN (firstn (Z.to_nat len) r) in
-          let '(o, m') := on_stateless_reset (tmap s) d in
-          (match o with None => 0%Z | Some i => Nz (i + 1) end)
-          :: run_ops f {| conns := conns s; tmap := m' |} (skipn (Z.to_nat len) r)
+          if (c0 <? 0)%Z then [] else ONew (zN c0) (zN seq) 0 (zN tok) :: parse f r
+      | 5%Z :: c0 :: seq :: tok :: r =>
+          if (c0 <? 0)%Z then [] else ONew (zN c0) (zN seq) (zN seq) (zN tok) :: parse f r
+      | 2%Z :: c0 :: r => if (c0 <? 0)%Z then [] else OUse (zN c0) :: parse f r
+      | 3%Z :: c0 :: r => if (c0 <? 0)%Z then [] else ODrop (zN c0) :: parse f r
+      | 4%Z :: len :: r => ODgram (map zN (firstn (Z.to_nat len) r)) :: parse f (skipn (Z.to_nat len) r)
+      | 6%Z :: c0 :: pn :: r => if (c0 <? 0)%Z then [] else OTx (zN c0) (zN pn) :: parse f r
+      | 7%Z :: c0 :: pn :: r => if (c0 <? 0)%Z then [] else OAck (zN c0) (zN pn) :: parse f r
       | _ => []
       end
   end.
 
-Definition run (c : list Z) : list Z := run_ops (length c) (mks [] []) c.
+Definition run (c : list Z) : list Z := run_ops (mks [] []) (parse (length c) c).
 
 (* the property: a datagram is matched to connection i only if its last 16 bytes are a token the
-   peer registered for connection i (transport parameter or NEW_CONNECTION_ID) earlier *)
-Fixpoint judge_ops (fuel : nat) (nconn : N) (regs : list (N * list N)) (c o : list Z) : bool :=
-  match fuel with
-  | O => match o with [] => true | _ => false end
-  | S f =>
-      match c with
-      | 0%Z :: flag :: tok :: r =>
-          judge_ops f (nconn + 1) (if (flag =? 0)%Z then regs else (nconn, tok_bytes (zN tok)) :: regs) r o
-      | 1%Z :: c0 :: seq :: tok :: r =>
-          match o with
-          | code :: o' => judge_ops f nconn (if (code =? 0)%Z then (zN c0, tok_bytes (zN tok)) :: regs else regs) r o'
-          | [] => false
-          end
-      | 2%Z :: c0 :: r => match o with _ :: o' => judge_ops f nconn regs r o' | [] => false end
-      | 3%Z :: c0 :: r => match o with _ :: o' => judge_ops f nconn regs r o' | [] => false end
-      | 4%Z :: len :: r =>
-          let d := map zN (firstn (Z.to_nat len) r) in
-          match o with
-          | i :: o' =>
-              (if (i =? 0)%Z then true
-               else (0 <? i)%Z &&
-                    match last16 d with
-                    | None => false
-                    | Some t => existsb (fun e => (fst e =? zN i - 1) && eqb_bytes t (snd e)) regs
-                    end)
-              && judge_ops f nconn regs (skipn (Z.to_nat len) r) o'
-          | [] => false
-          end
-      | _ => match o with [] => true | _ => false end
+   peer registered for connection i (transport parameter or an accepted NEW_CONNECTION_ID) earlier *)
+Fixpoint judge_ops (nconn : N) (regs : list (N * list N)) (ops : list rop) (o : list Z) : bool :=
+  match ops with
+  | [] => match o with [] => true | _ => false end
+  | OOpen flag tok :: t =>
+      judge_ops (nconn + 1) (if flag then (nconn, tok_bytes tok) :: regs else regs) t o
+  | ONew c seq rpt tok :: t =>
+      match o with
+      | code :: o' => judge_ops nconn (if (code =? 0)%Z then (c, tok_bytes tok) :: regs else regs) t o'
+      | [] => false
       end
+  | ODgram d :: t =>
+      match o with
+      | i :: o' =>
+          (if (i =? 0)%Z then true
+           else (0 <? i)%Z &&
+                match last16 d with
+                | None => false
+                | Some tk => existsb (fun e => (fst e =? zN i - 1) && eqb_bytes tk (snd e)) regs
+                end)
+          && judge_ops nconn regs t o'
+      | [] => false
+      end
+  | _ :: t => match o with _ :: o' => judge_ops nconn regs t o' | [] => false end
   end.
 
-Definition judge (c o : list Z) : bool := judge_ops (length c) 0 [] c o.
+Definition judge (c o : list Z) : bool := judge_ops 0 [] (parse (length c) c) o.
